@@ -352,10 +352,10 @@ const (
 
 // Format formats the node.
 func (node *Select) Format(buf *TrackedBuffer) {
-	buf.Myprintf("select %v%s%s%s%v from %v%v%v%v%v%v%s",
+	buf.Myprintf("select %v%s%s%s%v from %v%v%v%v%v%v%v%s",
 		node.Comments, node.Cache, node.Distinct, node.Hints, node.SelectExprs,
 		node.From, node.Where,
-		node.GroupBy, node.Having, node.OrderBy,
+		node.GroupBy, node.Having, node.Trigger, node.OrderBy,
 		node.Limit, node.Lock)
 }
 
@@ -517,7 +517,7 @@ type CommonTableExpression struct {
 }
 
 func (node *CommonTableExpression) Format(buf *TrackedBuffer) {
-	buf.Myprintf("%s AS (%v)", node.Name, node.Select)
+	buf.Myprintf("%v AS (%v)", node.Name, node.Select)
 }
 
 func (node *CommonTableExpression) walkSubtree(visit Visit) error {
@@ -2127,6 +2127,10 @@ const (
 
 // Format formats the node.
 func (node *JoinTableExpr) Format(buf *TrackedBuffer) {
+	if node.Strategy == LookupJoinStrategy || node.Strategy == StreamJoinStrategy {
+		buf.Myprintf("%v %s %s %v%v", node.LeftExpr, node.Strategy, node.Join, node.RightExpr, node.Condition)
+		return
+	}
 	buf.Myprintf("%v %s %v%v", node.LeftExpr, node.Join, node.RightExpr, node.Condition)
 }
 
@@ -2151,6 +2155,9 @@ type TableValuedFunction struct {
 // Format formats the node.
 func (node *TableValuedFunction) Format(buf *TrackedBuffer) {
 	buf.Myprintf("%v(%v)", node.Name, node.Args)
+	if !node.As.IsEmpty() {
+		buf.Myprintf(" as %v", node.As)
+	}
 }
 
 func (node *TableValuedFunction) walkSubtree(visit Visit) error {
@@ -2993,6 +3000,11 @@ type ListArg []byte
 
 // Format formats the node.
 func (node ListArg) Format(buf *TrackedBuffer) {
+	if len(node) == 0 {
+		// the tokenizer yields LIST_ARG for a bare "::" and keeps no name
+		buf.WriteString("::")
+		return
+	}
 	buf.WriteArg(string(node))
 }
 
@@ -3028,6 +3040,10 @@ const (
 
 // Format formats the node.
 func (node *BinaryExpr) Format(buf *TrackedBuffer) {
+	if node.Operator == ArrayElement {
+		buf.Myprintf("%v[%v]", node.Left, node.Right)
+		return
+	}
 	buf.Myprintf("%v %s %v", node.Left, node.Operator, node.Right)
 }
 
@@ -3094,7 +3110,9 @@ type IntervalExpr struct {
 
 // Format formats the node.
 func (node *IntervalExpr) Format(buf *TrackedBuffer) {
-	buf.Myprintf("interval %v %s", node.Expr, node.Unit)
+	buf.Myprintf("interval %v ", node.Expr)
+	// the unit is an identifier: quote it when it cannot be read back as one
+	formatID(buf, node.Unit, "")
 }
 
 func (node *IntervalExpr) walkSubtree(visit Visit) error {
@@ -3121,7 +3139,9 @@ type TimestampFuncExpr struct {
 
 // Format formats the node.
 func (node *TimestampFuncExpr) Format(buf *TrackedBuffer) {
-	buf.Myprintf("%s(%s, %v, %v)", node.Name, node.Unit, node.Expr1, node.Expr2)
+	buf.Myprintf("%s(", node.Name)
+	formatID(buf, node.Unit, "")
+	buf.Myprintf(", %v, %v)", node.Expr1, node.Expr2)
 }
 
 func (node *TimestampFuncExpr) walkSubtree(visit Visit) error {
@@ -3179,7 +3199,8 @@ type CollateExpr struct {
 
 // Format formats the node.
 func (node *CollateExpr) Format(buf *TrackedBuffer) {
-	buf.Myprintf("%v collate %s", node.Expr, node.Charset)
+	buf.Myprintf("%v collate ", node.Expr)
+	formatID(buf, node.Charset, strings.ToLower(node.Charset))
 }
 
 func (node *CollateExpr) walkSubtree(visit Visit) error {
@@ -3215,8 +3236,9 @@ func (node *FuncExpr) Format(buf *TrackedBuffer) {
 	}
 	// Function names should not be back-quoted even
 	// if they match a reserved word. So, print the
-	// name as is.
-	buf.Myprintf("%s(%s%v)", node.Name.String(), distinct, node.Exprs)
+	// name as is (unless it is not made of identifier characters).
+	formatID(buf, node.Name.String(), "")
+	buf.Myprintf("(%s%v)", distinct, node.Exprs)
 }
 
 func (node *FuncExpr) walkSubtree(visit Visit) error {
@@ -3414,7 +3436,9 @@ type ConvertUsingExpr struct {
 
 // Format formats the node.
 func (node *ConvertUsingExpr) Format(buf *TrackedBuffer) {
-	buf.Myprintf("convert(%v using %s)", node.Expr, node.Type)
+	buf.Myprintf("convert(%v using ", node.Expr)
+	formatID(buf, node.Type, strings.ToLower(node.Type))
+	buf.Myprintf(")")
 }
 
 func (node *ConvertUsingExpr) walkSubtree(visit Visit) error {
@@ -3446,7 +3470,7 @@ type ConvertTypeSimple struct {
 
 // Format formats the node.
 func (node *ConvertTypeSimple) Format(buf *TrackedBuffer) {
-	buf.Myprintf("%s", node.Name)
+	formatID(buf, node.Name, "")
 }
 
 func (node *ConvertTypeSimple) walkSubtree(visit Visit) error {
@@ -3586,7 +3610,9 @@ type Default struct {
 func (node *Default) Format(buf *TrackedBuffer) {
 	buf.Myprintf("default")
 	if node.ColName != "" {
-		buf.Myprintf("(%s)", node.ColName)
+		buf.Myprintf("(")
+		formatID(buf, node.ColName, strings.ToLower(node.ColName))
+		buf.Myprintf(")")
 	}
 }
 
@@ -3733,7 +3759,7 @@ type Triggers []Trigger
 
 // Format formats the node.
 func (node Triggers) Format(buf *TrackedBuffer) {
-	prefix := "TRIGGER "
+	prefix := " TRIGGER "
 	for _, n := range node {
 		buf.Myprintf("%s%v", prefix, n)
 		prefix = ", "
@@ -3774,7 +3800,7 @@ type EndOfStreamTrigger struct {
 }
 
 func (w *EndOfStreamTrigger) Format(buf *TrackedBuffer) {
-	buf.Myprintf("ON WATERMARK")
+	buf.Myprintf("ON END OF STREAM")
 }
 
 func (w *EndOfStreamTrigger) walkSubtree(visit Visit) error {
@@ -3786,7 +3812,7 @@ type DelayTrigger struct {
 }
 
 func (w *DelayTrigger) Format(buf *TrackedBuffer) {
-	buf.Myprintf("DELAY %v", w.Delay)
+	buf.Myprintf("AFTER DELAY %v", w.Delay)
 }
 
 func (w *DelayTrigger) walkSubtree(visit Visit) error {
